@@ -169,5 +169,75 @@ def provReportGen (s : Sess) (t : Nat) (r : Engine.Raised) : Option (Option Sess
     | _ => none
   | none => some none
 
+/-! ## `skipif` marks: the condition as the re-creation of the DAG reads it, and as the regular skip logic reads it -/
+
+/-- A `skipif` mark: the truthiness of its positional arguments and of its keyword arguments. -/
+structure SMark where
+  args : List Bool
+  kwargs : List (String × Bool)
+
+def kwLookup (k : String) : List (String × Bool) → Option Bool
+  | [] => none
+  | (k', v) :: r => if k' == k then some v else kwLookup k r
+
+/-- What an extracted reader (`_is_condition_true`) returns; `none` = it raises. -/
+def condEval : CExpr → SMark → Option Bool
+  | .arg0, m => m.args.head?
+  | .kw k d, m => some ((kwLookup k m.kwargs).getD d)
+  | .ifArgs t e, m => if m.args.isEmpty then condEval e m else condEval t m
+  | .neg e, m => (condEval e m).map (!·)
+  | .lit b, _ => some b
+
+/-- Python's binding of `skipif(*mark.args, **mark.kwargs)` for `def skipif(<p>, *, reason)`: the condition is the one positional
+argument or the keyword `<p>`; `none` = TypeError (no condition, two positional arguments, or both spellings). -/
+def skipifBind (p : String) (m : SMark) : Option Bool :=
+  match m.args, kwLookup p m.kwargs with
+  | [a], none => some a
+  | [], some v => some v
+  | _, _ => none
+
+/-! ## the `root_dir` of a DirectoryNode in `pytask_collect_node` -/
+
+inductive Comp | up | dot | name (n : Nat)
+deriving DecidableEq, Repr
+
+/-- A declared path: absolute or relative, components as spelled. -/
+structure RPath where
+  abs : Bool
+  comps : List Comp
+deriving DecidableEq, Repr
+
+/-- `os.path.normpath` of an absolute path (`acc` = the components so far, reversed): `/..` is `/`. -/
+def normAbs : List Comp → List Comp → List Comp
+  | acc, [] => acc.reverse
+  | acc, .dot :: r => normAbs acc r
+  | acc, .up :: r => normAbs acc.tail r
+  | acc, .name n :: r => normAbs (.name n :: acc) r
+
+/-- `os.path.normpath` of a relative path: a `..` with nothing to remove stays. -/
+def normRel : List Comp → List Comp → List Comp
+  | acc, [] => acc.reverse
+  | acc, .dot :: r => normRel acc r
+  | acc, .up :: r => match acc with
+    | .name _ :: a => normRel a r
+    | _ => normRel (.up :: acc) r
+  | acc, .name n :: r => normRel (.name n :: acc) r
+
+def RPath.norm (p : RPath) : RPath := { p with comps := if p.abs then normAbs [] p.comps else normRel [] p.comps }
+
+/-- One extracted step on the root_dir; `d` = the directory of the task module (absolute). -/
+def rootStep (d : List Comp) : RStep → RPath → RPath
+  | .joinModuleDir, p => if p.abs then p else { abs := true, comps := d ++ p.comps }
+  | .normalise, p => p.norm
+  | .checkCasing, p => p
+
+def rootRun (d : List Comp) (steps : List RStep) (p : RPath) : RPath := steps.foldl (fun q st => rootStep d st q) p
+
+/-- what `pytask_collect_node` makes of a declared root_dir, from the extracted steps -/
+def rootDirGen (d : List Comp) (p : RPath) : RPath := rootRun d (if p.abs then rootDirAbsolute else rootDirRelative) p
+
+/-- The directory a declaration denotes: the spelled path below the directory of its module, normalised. -/
+def rootDirRef (d : List Comp) (p : RPath) : RPath := { abs := true, comps := normAbs [] (if p.abs then p.comps else d ++ p.comps) }
+
 end ProvGen
 end Pytask
